@@ -14,7 +14,7 @@ RULE = ("programs with arbitrary alternating nesting of sequential and parallel 
 ASSUMPTIONS = ["a loop is an opaque item of the outer sequence; its body is compared by meaning, not re-scheduled",
                "a subcircuit block is an opaque annotated item whose inner schedule must be preserved"]
 TIERS = {"quick": {"shards": 8, "budget_s": 40}, "thorough": {"shards": 16, "budget_s": 300}}
-REQUIRE = {"parallel-subcircuit-blocks-fused": 300, "schedules-compared": 1500, "loop-under-parallel": 200, "unequal-branches": 500, "with-subcircuit": 200,
+REQUIRE = {"programs-with-same-kind-nesting-assembled": 1000, "parallel-subcircuit-blocks-fused": 300, "schedules-compared": 1500, "loop-under-parallel": 200, "unequal-branches": 500, "with-subcircuit": 200,
            "empty-blocks": 200, "depth>=4": 200}
 
 
@@ -97,9 +97,15 @@ def raw_body(core):
 
 def judge(case):
     prog = case_prog(case)
-    if not sx.legal_nesting(prog):
-        return "skipped:illegal-nesting", [], {}
-    o = lib.outcome(lib.parse, sx.to_text(prog))
+    if case.get("assemble"):
+        # put together from core constructors: blocks of one kind may then sit directly inside each other
+        o = lib.outcome(apiroute.assemble_from_objects, tuple(x for x in prog if not (isinstance(x, tuple) and x[0] in ("usepulses", "macro"))))
+        if o[0] != "ok":
+            return "inconclusive:cannot-assemble:%s" % (o[2],), [], {}
+    else:
+        if not sx.legal_nesting(prog):
+            return "skipped:illegal-nesting", [], {}
+        o = lib.outcome(lib.parse, sx.to_text(prog))
     if o[0] != "ok":
         return "skipped:input-rejected", [], {}
     c = o[1]
@@ -234,6 +240,29 @@ def gen_prog(rng):
     return ("circuit",) + tuple(hdr) + (mac,) + tuple(body), feats
 
 
+def nest_same_kind(rng, prog):
+    """Wrap a run of children of some block in another block of the SAME kind (only circuits made from core objects can
+    look like that).  Returns the new program or None."""
+    blocks = [b for b in sx.walk(prog) if b[0] in ("sequential_block", "parallel_block") and len(b) > 1]
+    if not blocks:
+        return None
+    target = rng.choice(blocks)
+    i = rng.randrange(1, len(target))
+    j = rng.randint(i, len(target) - 1)
+    new = target[:i] + ((target[0],) + target[i:j + 1],) + target[j + 1:]
+    done = [False]
+
+    def rw(s):
+        if not isinstance(s, tuple):
+            return s
+        if s is target and not done[0]:
+            done[0] = True
+            return new
+        return tuple(rw(x) for x in s)
+
+    return rw(prog)
+
+
 def unequal(prog):
     def length(s):
         if s[0] == "sequential_block":
@@ -283,11 +312,15 @@ def process(ctx, case, feats, seen):
             rec.count("unminimised-repeat:" + clause)
             continue
         base = {"fuse": True} if (case.get("fuse") and clause not in _clauses({"prog": prog})) else {}
+        if case.get("assemble"):
+            base["assemble"] = True
         small = minimise.minimise(prog, lambda p: clause in _clauses(dict(base, prog=p)), budget=200)
         d2 = [x for x in judge(dict(base, prog=small))[1] if x[0] == clause]
         f = set()
-        if base:
+        if base.get("fuse"):
             f.add("parallel-subcircuit-block-made-from-core-objects")
+        if base.get("assemble"):
+            f.add("same-kind-blocks-nested-by-core-objects")
         if any(s[0] == "subcircuit_block" for s in sx.walk(small)):
             f.add("sub")
         if any(s[0] == "usepulses" for s in sx.walk(small)):
@@ -308,6 +341,11 @@ def shard(ctx):
         if "sub" in feats and ctx.rng.random() < 0.5:
             case["fuse"] = True
         process(ctx, case, feats, seen)
+        if i % 5 == 0:
+            p2 = nest_same_kind(ctx.rng, prog)
+            if p2 is not None:
+                process(ctx, {"prog": p2, "assemble": True}, feats, seen)
+                rec.count("programs-with-same-kind-nesting-assembled")
         if i <= 3:
             rec.sample({"text": sx.to_text(prog)})
     monitors.report_contracts(rec)
